@@ -14,7 +14,11 @@ GInit == Init /\ hist = <<>>
 GNext == /\ Len(hist) < Depth
          /\ Next
          /\ hist' = IF \E t \in Threads : pc[t] = "finish" /\ pc'[t] = "idle"
-                    THEN Append(hist, [call |-> cur[1], res |-> res'[1]]) ELSE hist
+                    THEN Append(hist, [call |-> cur[1], res |-> res'[1]])
+                    ELSE IF owner' # owner
+                    THEN LET d == CHOOSE d \in 1..Len(Docs0) : owner'[d] # owner[d] IN
+                         Append(hist, [call |-> <<"edit", 0, d>>, res |-> [kind |-> "edit", sel |-> <<owner'[d]>>]])
+                    ELSE hist
 GSpec == GInit /\ [][GNext]_<<vars, hist>>
 
 ResView(r) ==
